@@ -248,7 +248,7 @@ CLAIMS = {
                 'environment performs any sequence of complete lock operations of other fibers: Mutex lock/try_lock/unlock, TimedMutex, RecursiveMutex '
                 '(lock, try_lock, unlock, LockHelper), RecursiveTimedMutex, SharedMutex (lock, try_lock, lock_shared, try_lock_shared, unlock, unlock_shared, '
                 'both helpers), SharedTimedMutex: on return the fiber is the only holder in the requested mode, try / timed success really holds the lock, '
-                'failure only because it was incompatible or the deadline passed, unlock frees and notifies; FiberQueue Wait / timed Wait / NotifyOne, '
+                'failure only because it was incompatible or the deadline passed, unlock frees and notifies a queue somebody is parked on; FiberQueue Wait / timed Wait / NotifyOne / NotifyAll (loop invariant: every parked fiber scheduled exactly once) / ScheduleAndRemove, ConditionVariable notify_one / notify_all, '
                 'ConditionVariable::WaitImpl, Thread::join (returns only after Completed), thread-local proxy keyed by the current fiber; unit run_loop: the scheduler loop (with nothing runnable the clock jumps to the earliest sleeper so that a timed wait ends; a completed fiber is freed only when its thread object let go); unit tls: every thread-local pointer '
                 'variable gets a key no other variable has whatever the pointee types (constructors of ThreadLocalPtrProxy; the scope of the key counter is read from the text). '
                 'Unit sleep_map: the scheduler\'s sleep map (Sleep, SleepPreemptive, WakeUpNeeded; std::map abstracted for one arbitrary key, ordered iteration never skips it): a passed deadline does not block, a sleeper is in the bucket of exactly its wake-up time, the clock wakes exactly the buckets whose time has come (all sleepers, once), a bucket is erased only when nobody sleeps in it, end() is never dereferenced (finding F14, fixed).',
